@@ -66,22 +66,36 @@ pub fn bytes_to_words(bytes: &[u8]) -> &[u64] {
 ///
 /// Panics if `bytes.len()` is not a multiple of 8.
 pub fn bytes_to_words_vec(bytes: &[u8]) -> Vec<u64> {
-    bytes_to_words(bytes).to_vec()
+    assert!(
+        bytes.len() % 8 == 0,
+        "byte slice length must be a multiple of 8, got {}",
+        bytes.len()
+    );
+    // Decode word by word rather than reinterpreting the slice: the result is
+    // owned anyway, and a `&[u8]` (a sub-slice of a file buffer, say) need not
+    // start on an 8-byte boundary, which `cast_slice` answers with a panic.
+    bytes
+        .chunks_exact(8)
+        .map(|chunk| {
+            let mut word = [0u8; 8];
+            word.copy_from_slice(chunk);
+            u64::from_ne_bytes(word)
+        })
+        .collect()
 }
 
 /// Try to read u64 words from raw bytes.
 ///
-/// Returns `None` if `bytes.len()` is not a multiple of 8.
+/// Returns `None` if `bytes.len()` is not a multiple of 8, or if the slice does
+/// not start on an 8-byte boundary (a borrowed `&[u64]` cannot exist there;
+/// [`bytes_to_words_vec`] copies instead and accepts any alignment). Never
+/// panics.
 #[inline]
 pub fn try_bytes_to_words(bytes: &[u8]) -> Option<&[u64]> {
     if bytes.is_empty() {
         return Some(&[]);
     }
-    if bytes.len() % 8 == 0 {
-        Some(cast_slice(bytes))
-    } else {
-        None
-    }
+    bytemuck::try_cast_slice(bytes).ok()
 }
 
 /// Memory-mapped file support for zero-copy access.
